@@ -50,26 +50,51 @@ func (b Boolean) Name() string {
 // String represents string values.
 type String string
 
+// escapes maps the character that follows a backslash in a FHIRPath string literal to the
+// character it denotes (https://hl7.org/fhirpath/N1/#string); \uXXXX is handled apart.
+var escapes = map[byte]byte{
+	'\'': '\'',
+	'"':  '"',
+	'`':  '`',
+	'r':  '\r',
+	't':  '\t',
+	'n':  '\n',
+	'f':  '\f',
+	'\\': '\\',
+	'/':  '/',
+}
+
 // ParseString parses the input string and replaces FHIRPath
-// escape sequences with their Go-equivalent escape characters.
+// escape sequences with the characters they denote.
 func ParseString(input string) (String, error) {
-	escSequences := []string{
-		"\\'", "'",
-		"\\\"", "\"",
-		"\\`", "`",
-		"\\r", "\r",
-		"\\t", "\t",
-		"\\n", "\n",
-		"\\f", "\f",
-		"\\\\", "\\",
-		"\\", "",
-		// TODO PHP-5581
-	}
 	input = strings.TrimPrefix(input, "'")
 	input = strings.TrimSuffix(input, "'")
-	replacer := strings.NewReplacer(escSequences...)
-	escapedString := replacer.Replace(input)
-	return String(escapedString), nil
+	var b strings.Builder
+	for i := 0; i < len(input); i++ {
+		c := input[i]
+		if c != '\\' {
+			b.WriteByte(c)
+			continue
+		}
+		if i+1 >= len(input) {
+			break // a lone trailing backslash denotes nothing
+		}
+		i++
+		if r, ok := escapes[input[i]]; ok {
+			b.WriteByte(r)
+			continue
+		}
+		if input[i] == 'u' && i+4 < len(input) {
+			if code, err := strconv.ParseUint(input[i+1:i+5], 16, 32); err == nil {
+				b.WriteRune(rune(code))
+				i += 4
+				continue
+			}
+		}
+		// an unknown escape denotes the character itself
+		b.WriteByte(input[i])
+	}
+	return String(b.String()), nil
 }
 
 // Equal returns true if the input value is a System String,
